@@ -2,6 +2,9 @@
 Property C09 — annotate accumulates information and never drops any.
 -/
 import ReuseVerif.Lemmas.History
+import ReuseVerif.Lemmas.C09Step
+import ReuseVerif.Lemmas.C09LineEndings
+import ReuseVerif.Lemmas.C09Merge
 import ReuseVerif.Theorems.C07
 import ReuseVerif.Theorems.C20
 
@@ -107,6 +110,225 @@ theorem C09_history_partial {norm : Text → Text} (t : Text) (ops : List Op) (h
       rw [hst] at ih ⊢
       simpa using ih
 
+/-! ### the whole file, without `headerHolds` / `tagsCompose` -/
+
+/-- **Table obligation** (re-opened whenever the END expression changes): the generated END expression can read a line
+    feed only inside the white space that follows `"`, `'` or `]` — so the tag reader, run on a text that does not end
+    (white space aside) with one of these, never looks beyond that text (`C09L.matchEnd_local`, `C09L.findAll_local`). -/
+theorem C09_end_guarded : EndGuarded Generated.endRe := C09L.endRe_guarded
+
+/-- **One step, the whole file.**  A successful invocation whose hypotheses hold (`Spec.stepGoodFull`: "\n" the only
+    line boundary of the old text, no `--merge-copyrights`, `Spec.styleOK` (for the `.license` pseudo style: every
+    expression of the old text parses), no `REUSE-IgnoreStart` in the old and in the new text, and the *seam* — `Spec.seamOK`: the last line above the header
+    has no trailing white space; that line, the last line of the old block and the last line of the new block do not end
+    with `"`, `'`, `]`): the new text declares **everything the old text declared, wherever in the text it stood,** and
+    everything requested — copyright notices verbatim, licence expressions as the parser normalises them; for any
+    template (`o.c.render` arbitrary), style, line mode, `--no-replace`.
+    Information outside the replaced block survives because `place_header` keeps the text above and below (only white
+    space next to the header changes) and the readers work piece by piece: copyright notices per `splitlines()` line, tags
+    per physical line with END proved unable to run across a line end that is not behind a quote character. -/
+theorem C09_step {norm : Text → Text} {o : Op} {t t' : Text}
+    (hw : annotateText o.c o.replace o.skipExisting o.info t = .written t') (hg : stepGoodFull norm o t) :
+    Declares norm (extractRaw t') ((extractRaw t).cpr ++ o.info.cpr) ((extractRaw t).lic ++ o.info.lic) :=
+  C09L.step_declares hw hg
+
+/-- **One step, contributors**, under any template that renders them (`Spec.rendersCon`: the new header block reads back
+    the contributors the template was handed — by `C09_contributors_handed` the requested ones and those of the old
+    block): every contributor of the old text, wherever it stood, and every requested one is a contributor of the new text. -/
+theorem C09_step_contributors {norm : Text → Text} {o : Op} {t t' : Text}
+    (hw : annotateText o.c o.replace o.skipExisting o.info t = .written t') (hg : stepGoodFull norm o t)
+    (hren : rendersCon o t = true) :
+    ∀ x, x ∈ (extractRaw t).con ∨ x ∈ o.info.con → x ∈ (extractRaw t').con :=
+  C09L.step_contributors hw hg hren
+
+/-- **History, the whole file.**  By induction over any finite list of invocations: if every successful step is good at
+    the text it is applied to (`Spec.GoodRunFull`; failed and skipped steps change nothing and need no hypothesis), the
+    final text declares everything the initial text declared — anywhere in it — and everything requested by every
+    successful step. -/
+theorem C09_history {norm : Text → Text} (t : Text) (ops : List Op) (hg : GoodRunFull norm t ops) :
+    Declares norm (extractRaw (run t ops))
+      ((extractRaw t).cpr ++ (accumulated t ops).1) ((extractRaw t).lic ++ (accumulated t ops).2) := by
+  induction hg with
+  | nil t => simpa [run, accumulated] using declares_self norm (extractRaw t)
+  | cons t o os hstep _ ih =>
+    rw [run_cons]
+    unfold accumulated
+    cases hw : annotateText o.c o.replace o.skipExisting o.info t with
+    | written t' =>
+      have hst : stepText t o = t' := by unfold stepText; rw [hw]
+      rw [hst] at ih ⊢
+      simp only
+      have hs := C09_step hw hstep
+      have ih1 : Declares norm (extractRaw (run t' os)) (extractRaw t').cpr (extractRaw t').lic :=
+        ⟨fun x hx => ih.1 x (List.mem_append_left _ hx), fun x hx => ih.2 x (List.mem_append_left _ hx)⟩
+      have ih2 : Declares norm (extractRaw (run t' os)) (accumulated t' os).1 (accumulated t' os).2 :=
+        ⟨fun x hx => ih.1 x (List.mem_append_right _ hx), fun x hx => ih.2 x (List.mem_append_right _ hx)⟩
+      have h3 := declares_trans ih1 hs
+      refine ⟨fun x hx => ?_, fun x hx => ?_⟩
+      · rcases List.mem_append.mp hx with h | h
+        · exact h3.1 x (List.mem_append_left _ h)
+        · rcases List.mem_append.mp h with h | h
+          · exact h3.1 x (List.mem_append_right _ h)
+          · exact ih2.1 x h
+      · rcases List.mem_append.mp hx with h | h
+        · exact h3.2 x (List.mem_append_left _ h)
+        · rcases List.mem_append.mp h with h | h
+          · exact h3.2 x (List.mem_append_right _ h)
+          · exact ih2.2 x h
+    | skipped =>
+      have hst : stepText t o = t := by unfold stepText; rw [hw]
+      rw [hst] at ih ⊢
+      simpa using ih
+    | failed e =>
+      have hst : stepText t o = t := by unfold stepText; rw [hw]
+      rw [hst] at ih ⊢
+      simpa using ih
+
+/-- **History, contributors.**  When moreover the template of every successful step renders the contributors it is handed
+    (`Spec.GoodRunCon`), the final text names every contributor the initial text named and every contributor requested by
+    a successful step. -/
+theorem C09_history_contributors {norm : Text → Text} (t : Text) (ops : List Op) (hg : GoodRunCon norm t ops) :
+    ∀ x, x ∈ (extractRaw t).con ∨ x ∈ accumulatedCon t ops → x ∈ (extractRaw (run t ops)).con := by
+  induction hg with
+  | nil t =>
+    intro x hx
+    rcases hx with h | h
+    · exact h
+    · cases h
+  | cons t o os hstep hren _ ih =>
+    intro x hx
+    rw [run_cons]
+    unfold accumulatedCon at hx
+    cases hw : annotateText o.c o.replace o.skipExisting o.info t with
+    | written t' =>
+      have hst : stepText t o = t' := by unfold stepText; rw [hw]
+      rw [hst] at ih ⊢
+      rw [hw] at hx
+      simp only [List.mem_append] at hx
+      have hs := C09_step_contributors hw hstep (hren ⟨t', hw⟩)
+      rcases hx with h | h | h
+      · exact ih x (.inl (hs x (.inl h)))
+      · exact ih x (.inl (hs x (.inr h)))
+      · exact ih x (.inr h)
+    | skipped =>
+      have hst : stepText t o = t := by unfold stepText; rw [hw]
+      rw [hst] at ih ⊢
+      rw [hw] at hx
+      exact ih x hx
+    | failed e =>
+      have hst : stepText t o = t := by unfold stepText; rw [hw]
+      rw [hst] at ih ⊢
+      rw [hw] at hx
+      exact ih x hx
+
+/-! ### CRLF and CR files -/
+
+/-- **One step on a CRLF file.**  The file holds the CRLF form `toCRLF u` of an LF text `u` (no carriage return in `u`, at
+    least one line end).  What is written is the CRLF form of what the same invocation writes for `u` (C08), lint's decoder
+    folds both files back to the LF texts (`foldLineEndings`), and for those `C09_step` holds: the file after the step
+    declares everything the file before declared and everything requested.  (`NoCR t'`: the template wrote no carriage
+    return of its own.) -/
+theorem C09_step_crlf {norm : Text → Text} {o : Op} {u T : Text} (hcr : NoCR u) (hlf : '\n' ∈ u)
+    (hw : annotateText o.c o.replace o.skipExisting o.info (toCRLF u) = .written T)
+    (hg : stepGoodFull norm { o with skipExisting := false } u) :
+    ∃ t', annotateText o.c o.replace false o.info u = .written t' ∧ T = toCRLF t' ∧
+      (NoCR t' → foldLineEndings T = t' ∧ foldLineEndings (toCRLF u) = u ∧
+        Declares norm (extractRaw (foldLineEndings T))
+          ((extractRaw (foldLineEndings (toCRLF u))).cpr ++ o.info.cpr)
+          ((extractRaw (foldLineEndings (toCRLF u))).lic ++ o.info.lic)) := by
+  have hw' := C09L.written_noskip hw
+  rw [C08.C08_line_endings_crlf o.c o.replace o.info u hcr hlf] at hw'
+  obtain ⟨t', ha, hT⟩ := C09L.mapWritten_written hw'
+  refine ⟨t', ha, hT, fun hcr' => ?_⟩
+  rw [hT, C09L.fold_crlf hcr', C09L.fold_crlf hcr]
+  exact ⟨rfl, rfl, C09_step (o := { o with skipExisting := false }) ha hg⟩
+
+/-- **One step on a CR file** (classic Mac line ends): the same through `toCR`. -/
+theorem C09_step_cr {norm : Text → Text} {o : Op} {u T : Text} (hcr : NoCR u) (hlf : '\n' ∈ u)
+    (hw : annotateText o.c o.replace o.skipExisting o.info (toCR u) = .written T)
+    (hg : stepGoodFull norm { o with skipExisting := false } u) :
+    ∃ t', annotateText o.c o.replace false o.info u = .written t' ∧ T = toCR t' ∧
+      (NoCR t' → foldLineEndings T = t' ∧ foldLineEndings (toCR u) = u ∧
+        Declares norm (extractRaw (foldLineEndings T))
+          ((extractRaw (foldLineEndings (toCR u))).cpr ++ o.info.cpr)
+          ((extractRaw (foldLineEndings (toCR u))).lic ++ o.info.lic)) := by
+  have hw' := C09L.written_noskip hw
+  rw [C08.C08_line_endings_cr o.c o.replace o.info u hcr hlf] at hw'
+  obtain ⟨t', ha, hT⟩ := C09L.mapWritten_written hw'
+  refine ⟨t', ha, hT, fun hcr' => ?_⟩
+  rw [hT, C09L.fold_cr hcr', C09L.fold_cr hcr]
+  exact ⟨rfl, rfl, C09_step (o := { o with skipExisting := false }) ha hg⟩
+
+/-- **A writing step on a CRLF / CR file is the step on the LF text behind it** (`f` = `toCRLF` or `toCR`, see
+    `C09_leform`): the same invocation, without `--skip-existing`, writes `t'` for `u`, the file afterwards is the form of
+    `t'`, and lint's decoder reads `u` before and — when the template wrote no carriage return — `t'` after.  Every step
+    theorem for LF texts (`C09_step`, `C09_step_contributors`, `C09_step_merge`, `C09_step_transfer`) therefore speaks
+    about the file; `C09_step_crlf` / `_cr` spell this out for `C09_step`. -/
+theorem C09_step_form {f : Text → Text} (hf : C09L.LEForm f) {o : Op} {u T : Text} (hcr : NoCR u) (hlf : '\n' ∈ u)
+    (hw : annotateText o.c o.replace o.skipExisting o.info (f u) = .written T) :
+    ∃ t', annotateText o.noSkip.c o.noSkip.replace o.noSkip.skipExisting o.noSkip.info u = .written t' ∧ T = f t' ∧
+      foldLineEndings (f u) = u ∧ (NoCR t' → foldLineEndings T = t') := by
+  obtain ⟨ha, hT, _⟩ := C09L.step_form hf hcr hlf hw
+  exact ⟨_, ha, hT, hf.fold u hcr, fun h => by rw [hT]; exact hf.fold _ h⟩
+
+/-- the two line-ending forms: annotating the form gives the form of the result (C08), the decoder folds it back -/
+theorem C09_leform : C09L.LEForm toCRLF ∧ C09L.LEForm toCR := ⟨C09L.leForm_crlf, C09L.leForm_cr⟩
+
+/-- **A history on a CRLF / CR file is the history of the LF text behind it.**  The file starts as the form `f u` of an LF
+    text; no writing step writes a carriage return of its own (`Spec.CleanRun`).  Then the file stays the form of an LF text,
+    namely of `run u (lfOps f u ops)` — the same invocations, those that wrote, without `--skip-existing` —, lint's decoder
+    reads that text, and the requests that count are the same.  So `C09_history`, `C09_history_contributors` and
+    `C09_history_merge`, applied to `u` and `lfOps f u ops`, speak about what lint reads from the file; `C09_history_crlf`
+    / `_cr` spell this out. -/
+theorem C09_history_form {f : Text → Text} (hf : C09L.LEForm f) (u : Text) (ops : List Op)
+    (hg : CleanRun f u ops) (hcr : NoCR u) (hlf : '\n' ∈ u) :
+    run (f u) ops = f (run u (lfOps f u ops)) ∧ foldLineEndings (run (f u) ops) = run u (lfOps f u ops) ∧
+    foldLineEndings (f u) = u ∧
+    accumulated (f u) ops = accumulated u (lfOps f u ops) ∧ accumulatedCon (f u) ops = accumulatedCon u (lfOps f u ops) := by
+  obtain ⟨h1, h2, h3, h4⟩ := C09L.history_form hf u ops hg hcr hlf
+  exact ⟨h1, h2, hf.fold u hcr, h3, h4⟩
+
+/-- **A history on a CRLF file**: what lint's decoder reads from the file after the history declares everything it read
+    before and everything requested by a successful step — licence expressions, the same holders, every year stated before
+    covered (and, when no step merges, every notice verbatim: second part). -/
+theorem C09_history_crlf {norm : Text → Text} (u : Text) (ops : List Op) (hc : CleanRun toCRLF u ops)
+    (hcr : NoCR u) (hlf : '\n' ∈ u) :
+    (GoodRunAny norm u (lfOps toCRLF u ops) →
+      (∀ x, x ∈ (extractRaw (foldLineEndings (toCRLF u))).lic ∨ x ∈ (accumulated (toCRLF u) ops).2 →
+        norm x ∈ (extractRaw (foldLineEndings (run (toCRLF u) ops))).lic.map norm) ∧
+      (∀ s, s ∈ holdersOf ((extractRaw (foldLineEndings (toCRLF u))).cpr ++ (accumulated (toCRLF u) ops).1) →
+        s ∈ holdersOf (extractRaw (foldLineEndings (run (toCRLF u) ops))).cpr) ∧
+      (∀ s z, z ∈ yearsIn ((extractRaw (foldLineEndings (toCRLF u))).cpr ++ (accumulated (toCRLF u) ops).1) s →
+        YearCovered (extractRaw (foldLineEndings (run (toCRLF u) ops))).cpr s z)) ∧
+    (GoodRunFull norm u (lfOps toCRLF u ops) →
+      Declares norm (extractRaw (foldLineEndings (run (toCRLF u) ops)))
+        ((extractRaw (foldLineEndings (toCRLF u))).cpr ++ (accumulated (toCRLF u) ops).1)
+        ((extractRaw (foldLineEndings (toCRLF u))).lic ++ (accumulated (toCRLF u) ops).2)) := by
+  obtain ⟨_, h2, h3, h4, _⟩ := C09_history_form C09L.leForm_crlf u ops hc hcr hlf
+  rw [h2, h3, h4]
+  exact ⟨fun hg => C09L.history_any u _ hg, fun hg => C09_history u _ hg⟩
+
+/-- **A history on a CR file.** -/
+theorem C09_history_cr {norm : Text → Text} (u : Text) (ops : List Op) (hc : CleanRun toCR u ops)
+    (hcr : NoCR u) (hlf : '\n' ∈ u) :
+    (GoodRunAny norm u (lfOps toCR u ops) →
+      (∀ x, x ∈ (extractRaw (foldLineEndings (toCR u))).lic ∨ x ∈ (accumulated (toCR u) ops).2 →
+        norm x ∈ (extractRaw (foldLineEndings (run (toCR u) ops))).lic.map norm) ∧
+      (∀ s, s ∈ holdersOf ((extractRaw (foldLineEndings (toCR u))).cpr ++ (accumulated (toCR u) ops).1) →
+        s ∈ holdersOf (extractRaw (foldLineEndings (run (toCR u) ops))).cpr) ∧
+      (∀ s z, z ∈ yearsIn ((extractRaw (foldLineEndings (toCR u))).cpr ++ (accumulated (toCR u) ops).1) s →
+        YearCovered (extractRaw (foldLineEndings (run (toCR u) ops))).cpr s z)) ∧
+    (GoodRunFull norm u (lfOps toCR u ops) →
+      Declares norm (extractRaw (foldLineEndings (run (toCR u) ops)))
+        ((extractRaw (foldLineEndings (toCR u))).cpr ++ (accumulated (toCR u) ops).1)
+        ((extractRaw (foldLineEndings (toCR u))).lic ++ (accumulated (toCR u) ops).2)) := by
+  obtain ⟨_, h2, h3, h4, _⟩ := C09_history_form C09L.leForm_cr u ops hc hcr hlf
+  rw [h2, h3, h4]
+  exact ⟨fun hg => C09L.history_any u _ hg, fun hg => C09_history u _ hg⟩
+
+/-- an LF file is read as it is -/
+theorem C09_fold_lf {u : Text} (hcr : NoCR u) : foldLineEndings u = u := C09L.fold_lf hcr
+
 /-- **--skip-existing.**  When the file already contains REUSE information the short-circuit
     writes nothing: the text (hence everything it declares) is unchanged. -/
 theorem C09_skip_existing (o : Op) (t : Text) (hs : o.skipExisting = true)
@@ -163,6 +385,64 @@ theorem C09_merge_years (lines : List Text) (stmt : Text) :
   obtain ⟨lo, hi, h1, h2, h3, h4, h5⟩ := (C20.C20_merge_year_span _ stmt).2 y hy
   exact ⟨lo, hi, h1, h2, h3, h4, h5, (C20.C20_merge_year_covers _ stmt lo hi h3 h4).1⟩
 
+/-! ### `--merge-copyrights`, the whole file -/
+
+/-- **The transfer every successful step makes** (any template, merging or not; hypotheses of `C09_step` without the one
+    about merging): every notice, expression and contributor of the old text is in the new text or stood in the replaced
+    header block, and everything the new header block holds is in the new text.  (What `create_header` puts into the new
+    block is then the business of the guard: `C07_guard`, `C09_step_header`, `C09_merge`.) -/
+theorem C09_step_transfer {norm : Text → Text} {o : Op} {t t' : Text}
+    (hw : annotateText o.c o.replace o.skipExisting o.info t = .written t') (h : C09L.StepHyps norm o t t') :
+    ∃ hdr, createHeader o.c o.info (sectionsOf o.c o.replace t).2.1 = .ok hdr ∧
+      (∀ x ∈ (extractRaw t).cpr, x ∈ (extractRaw t').cpr ∨ x ∈ (extractRaw (sectionsOf o.c o.replace t).2.1).cpr) ∧
+      (∀ x ∈ (extractRaw hdr).cpr, x ∈ (extractRaw t').cpr) ∧
+      (∀ x ∈ (extractRaw t).lic, x ∈ (extractRaw t').lic ∨ x ∈ (extractRaw (sectionsOf o.c o.replace t).2.1).lic) ∧
+      (∀ x ∈ (extractRaw hdr).lic, x ∈ (extractRaw t').lic) ∧
+      (∀ x ∈ (extractRaw t).con, x ∈ (extractRaw t').con ∨ x ∈ (extractRaw (sectionsOf o.c o.replace t).2.1).con) ∧
+      (∀ x ∈ (extractRaw hdr).con, x ∈ (extractRaw t').con) :=
+  C09L.step_transfer hw h
+
+/-- **One step with `--merge-copyrights`, the whole file** — what `C09_merge` and `C09_merge_years` give for the file.
+    With the hypotheses of `C09_step` (`Spec.stepGoodMerge`: the same, merging given):
+    * licence expressions: as without merging — everything the old text declared and everything requested;
+    * a notice of the old text is declared verbatim by the new text unless it stood in the replaced block;
+    * the notices that are merged are `Spec.mergePool` = the requested ones and those of the replaced block; for every one
+      of them, with holder (statement) `m.statement`, the new text declares the holder's merged line
+      `lineFor … m.statement`, and that line ends with the holder: **no holder is lost**;
+    * the year range written into that line runs from the numerically smallest to the numerically largest year stated
+      for the holder in the pool, and every stated year lies between the two (`C09_merge_years`, `C20_merge_year_covers`). -/
+theorem C09_step_merge {norm : Text → Text} {o : Op} {t t' : Text}
+    (hw : annotateText o.c o.replace o.skipExisting o.info t = .written t') (hg : stepGoodMerge norm o t) :
+    (∀ x, x ∈ (extractRaw t).lic ∨ x ∈ o.info.lic → norm x ∈ (extractRaw t').lic.map norm) ∧
+    (∀ x ∈ (extractRaw t).cpr, x ∈ (extractRaw t').cpr ∨ x ∈ (extractRaw (sectionsOf o.c o.replace t).2.1).cpr) ∧
+    (∀ l, l ∈ mergePool o t ↔ l ∈ o.info.cpr ∨ l ∈ (extractRaw (sectionsOf o.c o.replace t).2.1).cpr) ∧
+    (∀ l m, l ∈ mergePool o t → searchLine l = some m →
+      lineFor (parseLines Generated.endRe (mergePool o t)) m.statement ∈ (extractRaw t').cpr ∧
+      m.statement <:+ lineFor (parseLines Generated.endRe (mergePool o t)) m.statement) ∧
+    (∀ stmt y, mergedYear (yearsOf (parseLines Generated.endRe (mergePool o t)) stmt) = some y →
+      ∃ lo hi, yearMin (yearsOf (parseLines Generated.endRe (mergePool o t)) stmt) = some lo ∧
+        yearMax (yearsOf (parseLines Generated.endRe (mergePool o t)) stmt) = some hi ∧
+        (y = lo ∨ y = lo ++ " - ".toList ++ hi) ∧
+        (∀ z ∈ yearsOf (parseLines Generated.endRe (mergePool o t)) stmt, yearVal lo ≤ yearVal z ∧ yearVal z ≤ yearVal hi)) := by
+  obtain ⟨h1, h2, h3⟩ := C09L.step_merge hw hg
+  refine ⟨h1, h2, fun l => C09L.mem_mergePool, h3, fun stmt y hy => ?_⟩
+  obtain ⟨lo, hi, _, _, a, b, c, d⟩ := (C09_merge_years (mergePool o t) stmt).1 y hy
+  exact ⟨lo, hi, a, b, c, d⟩
+
+/-- **A history with merging steps.**  By induction over any finite list of invocations, each successful step either good
+    for `C09_step` or — with `--merge-copyrights` — good for `C09_step_merge` with its merged lines reading back their holder
+    and year ends (`Spec.mergeReadsBack`, decidable; `Spec.GoodRunAny`):
+    * the final text declares every licence expression the initial text declared and every one requested;
+    * **the same holders remain**: every holder the reader finds in a notice of the initial text or of a request is a holder
+      it finds in the final text;
+    * **each with a year range covering all years stated before**: every year stated for a holder in the initial text or in
+      a request lies, numerically, between two years the final text states for that holder. -/
+theorem C09_history_merge {norm : Text → Text} (t : Text) (ops : List Op) (hg : GoodRunAny norm t ops) :
+    (∀ x, x ∈ (extractRaw t).lic ∨ x ∈ (accumulated t ops).2 → norm x ∈ (extractRaw (run t ops)).lic.map norm) ∧
+    (∀ s, s ∈ holdersOf ((extractRaw t).cpr ++ (accumulated t ops).1) → s ∈ holdersOf (extractRaw (run t ops)).cpr) ∧
+    (∀ s z, z ∈ yearsIn ((extractRaw t).cpr ++ (accumulated t ops).1) s → YearCovered (extractRaw (run t ops)).cpr s z) :=
+  C09L.history_any t ops hg
+
 /-! ### `ReuseInfo.union` as the model has it -/
 
 /-- the union of two sets of lines is commutative and idempotent as a set, and contains both -/
@@ -179,5 +459,18 @@ theorem C09_union_algebra (a b : List Text) (x : Text) :
 -- `history` stream (op `c09step`): they hold on roughly 90 of the ~450 steps of a quick run, and there the real
 -- file must show the conclusion of C09_step_partial.
 example (t : Text) : GoodRun id t [] := GoodRun.nil t
+
+-- The new hypotheses.  The seam predicates are plain list functions and `decide` evaluates them; `stepGoodFull` as a whole
+-- involves the regex matcher through `createHeader`, so — as above — the compiled driver evaluates it on every step of every
+-- history (op `c09full`): it holds on 192 of the 195 steps of a quick run that write without `--merge-copyrights` (the old
+-- `stepGood`: 128), and there the real file must show the conclusions of C09_step / C09_step_contributors.
+example : cleanSeam "#!/bin/sh\n\n".toList = true ∧ cleanSeam "#!/bin/sh \n".toList = false := by decide
+example : openEnd "# SPDX-License-Identifier: MIT\n".toList = false ∧ openEnd "<x a=\"MIT\" \n".toList = true := by decide
+example : lineEnded "a\n".toList = true ∧ lineEnded "a".toList = false := by decide
+example : ¬ EndGuarded (.star (.cls false [('\n', '\n')])) := by decide
+example (t : Text) : GoodRunFull id t [] := GoodRunFull.nil t
+example (t : Text) : GoodRunAny id t [] := GoodRunAny.nil t
+example (u : Text) : CleanRun toCRLF u [] := CleanRun.nil u
+example : endYears ["2019".toList, "2023".toList, "２０１６".toList] = ["２０１６".toList, "2023".toList] := by decide
 
 end C09
